@@ -17,8 +17,25 @@ def hx(s):
     return s.encode().hex() if s else "-"
 
 
+F2 = "C12-F2-hidden-input-typed-at-echoing-prompt"
+
+
 def matcher(case):
-    return None     # the only finding of this property is fixed (findings/C12.json); nothing is attributed
+    """C12-F2 only: auth_secondary / hidden interact input that the DEVICE echoed (typed at an ordinary prompt) and that
+    is visible in nothing but `read: ` records of Channel.read; everything else stays a new violation"""
+    if case.get("role") in ("SEC", "HID") and case.get("echoed_by_device") and case.get("read_record") and case.get("sink") in ("log", "file"):
+        return F2
+    return None
+
+
+def _own_findings(ck):
+    try:
+        have = {f["id"] for f in ck.findings}
+        for f in json.load(open(VERIF / "findings" / "C12.json")):
+            if f["id"] not in have:
+                ck.findings.append(f)
+    except OSError:
+        pass
 
 
 # ---------------------------------------------------------------- static side: start sets per role
@@ -69,6 +86,8 @@ def scenario_specs(tier, rng):
             specs.append(dict(kind="escalate", stack=stack, platform=p, variant="ok"))
             if p != "cisco_iosxr":
                 specs.append(dict(kind="escalate", stack=stack, platform=p, variant="wrong", timeout_on_stall=True))
+            specs.append(dict(kind="escalate", stack=stack, platform=p, variant="nopass"))
+        specs.append(dict(kind="interactive_early", stack=stack))
         specs.append(dict(kind="escalate", stack=stack, platform="cisco_nxos", variant="wrong"))
         specs.append(dict(kind="escalate", stack=stack, platform="cisco_iosxe", variant="priverr"))
         specs.append(dict(kind="interactive", stack=stack))
@@ -167,6 +186,7 @@ def log_model_cases(cap, tier):
 # ---------------------------------------------------------------- run
 def run(tier, seed):
     ck = Check(PID, tier, seed, level="proof")
+    _own_findings(ck)
     ck.rule = ("dynamic validation: every scenario = one operation sequence on the REAL drivers/channels/transports over a simulated "
                "device that does not echo at password prompts (telnet login ok/rejected, ssh-style login with password and passphrase "
                "prompts ok/rejected, privilege escalation with auth_secondary on the five platforms ok/wrong/timeout, send_interactive "
@@ -259,6 +279,14 @@ def run(tier, seed):
         lg.propagate = old_state[1]
         logging.raiseExceptions = old_state[3]
     ck.extra["dynamic_wall_s"] = round(time.time() - t_dyn, 1)
+    # replay of the stored witness of the open finding C12-F2
+    for fnd in ck.findings:
+        if fnd["id"] == F2 and fnd.get("status") == "open":
+            w = fnd["witness"]
+            wr = [r for sp_, m_, r, o_ in results if sp_ == w["scenario"] or {k: v for k, v in sp_.items()} == w["scenario"]]
+            still = any(ex.kind == "log" and ex.func == "read" and r.can["SEC"].found_in(ex.text) for r in wr for ex in r.exhibits)
+            if still:
+                ck.known_finding(F2, "auth_secondary is typed at an echoing prompt when the device asks for no password; the echo is logged in the DEBUG read record")
 
     # ---- oracle on every scenario + collection of the observed flows
     probe_hits = 0
@@ -277,16 +305,20 @@ def run(tier, seed):
                 tags=(f"kind={sp['kind']}", f"stack={sp['stack']}", f"outcome={res.outcome}", f"origin={origin}",
                       "fault=" + (sp["fault"][0] + ":" + sp["fault"][2] if sp.get("fault") else "none")))
         for r in S.SECRET_ROLES:
-            secrets_used.append((res.key, r, res.can[r]))
+            secrets_used.append((res.key, r, res.can[r], r in res.echoed, sp))
         for ex in res.exhibits:
             for role, c in res.can.items():
                 if not c.found_in(ex.text):
                     continue
                 if role in S.SECRET_ROLES:
                     i = max(ex.text.find(c.core), 0)
+                    echoed = role in res.echoed
                     case = {"scenario": sp, "meta": list(meta) if meta else None, "seed": seed, "role": role, "sink": ex.kind,
-                            "site": list(ex.site) if ex.site else None, "what": ex.what, "excerpt": ex.text[max(0, i - 120): i + 60]}
-                    if ex.gating and not (ex.kind == "log" and ex.func == "read" and role in res.echoed):
+                            "site": list(ex.site) if ex.site else None, "what": ex.what, "excerpt": ex.text[max(0, i - 120): i + 60],
+                            "echoed_by_device": echoed, "read_record": ex.kind == "log" and ex.func == "read"}
+                    if ex.kind == "chanlog" and echoed:
+                        advisory_hits += 1      # the property allows the channel log to show what the device echoed
+                    elif ex.gating:
                         ck.violation(case, f"secret canary ({role}) visible in {ex.kind} {ex.what} at {ex.site}", matcher)
                     else:
                         advisory_hits += 1
@@ -302,12 +334,15 @@ def run(tier, seed):
         except OSError:
             file_texts.append("")
     ck.extra["log_file_bytes"] = [len(x) for x in file_texts]
-    for key, role, c in secrets_used:
+    import re as _re
+    for key, role, c, echoed, sp in secrets_used:
         for f, text in zip(files, file_texts):
             if c.found_in(text):
                 i = text.find(c.core)
-                ck.violation({"scenario_key": key, "role": role, "sink": "file", "file": os.path.basename(f), "seed": seed,
-                              "excerpt": text[max(0, i - 160): i + 60]},
+                lines_ = [l for l in text.splitlines() if c.found_in(l)]
+                only_reads = bool(lines_) and all(_re.search(r"\| read ?: ", l) for l in lines_)
+                ck.violation({"scenario": sp, "scenario_key": key, "role": role, "sink": "file", "file": os.path.basename(f), "seed": seed,
+                              "excerpt": text[max(0, i - 160): i + 60], "echoed_by_device": echoed, "read_record": only_reads},
                              f"secret canary ({role}) written to the scrapli log file {os.path.basename(f)}", matcher)
     if probe_hits == 0 or not all(file_texts) or not any("USRq" in x for x in file_texts):
         ck.proof_broken("harness self-check", "the non-secret probe tokens were not seen in records / log files: the capture is not working")
@@ -452,7 +487,7 @@ def replay(path):
     for ex in res.exhibits:
         for role in S.SECRET_ROLES:
             c = res.can[role]
-            if ex.gating and c.found_in(ex.text) and not (ex.kind == "log" and ex.func == "read" and role in res.echoed):
+            if ex.gating and c.found_in(ex.text) and not (ex.kind == "chanlog" and role in res.echoed):
                 i = ex.text.find(c.core)
                 print(f"LEAK role={role} secret={c.full!r} sink={ex.kind} {ex.what} site={ex.site}\n   ...{ex.text[max(0, i - 120): i + 60]!r}")
                 bad += 1
